@@ -2,7 +2,7 @@ SPECIFICATION Spec
 CONSTANTS
   LIM = 10
   Sizes = {1, 9, 10, 11}
-  MaxSteps = 7
+  MaxSteps = 6
   Errs = {"overflow", "corrupt"}
   StartEof = FALSE
 INVARIANTS RefAccepts Abstraction ParkedReaderRegistered ParkedFeederRegistered Emit
